@@ -58,11 +58,14 @@ def np_array(a):
 
 def with_memory_layout(arr):
     """the same array (equal shape, dtype and values) in one of several memory layouts, chosen by a checksum of its content:
-    C order, Fortran order, a strided view, a reversed-then-reversed view (negative strides), a transposed copy"""
+    C order, Fortran order, a strided view, a reversed-then-reversed view (negative strides), a transposed copy, non-native
+    byte order"""
     if arr.ndim == 0 or arr.size == 0 or arr.dtype.kind in "US":
         return arr
     import zlib
-    k = zlib.crc32(arr.tobytes() + str(arr.shape).encode()) % 6
+    k = zlib.crc32(arr.tobytes() + str(arr.shape).encode()) % 7
+    if k == 5 and arr.dtype.itemsize > 1:
+        return arr.astype(arr.dtype.newbyteorder())      # same values, non-native byte order (as read from a big-endian file)
     if k == 1 and arr.ndim >= 2:
         return np.asfortranarray(arr)
     if k == 2:
